@@ -368,6 +368,16 @@ func sanitize(s string) string {
 	return b.String()
 }
 
+var aggAttrRe = regexp.MustCompile(`key == '((?:[^'\\]|\\.)*)'\) as agg_val`)
+
+// aggAttr: the attribute a TraceQL aggregator statement reads (anyIf(toFloat64OrNull(val), key == 'X') as agg_val).
+func aggAttr(sql string) string {
+	if m := aggAttrRe.FindStringSubmatch(sql); m != nil {
+		return m[1]
+	}
+	return ""
+}
+
 // selfRefCTE reports the alias of a CTE whose body selects from itself (`X as ( ... FROM X as ...`).
 func selfRefCTE(sql string) string {
 	for _, m := range regexp.MustCompile(`([A-Za-z_][A-Za-z0-9_]*) as \( SELECT`).FindAllStringSubmatchIndex(sql, -1) {
@@ -537,6 +547,9 @@ func classify(m Mismatch) (class, what string) {
 			if dev == m.Got || staleLowerDateOnly(m.Got, dev) {
 				return "reexec_line_filter_val_overwritten", fmt.Sprintf("execution #%d of the plan of %s sends the SQL of %s (LineFilterPlanner.Process stored the extracted literal in l.Val)", m.Event+1, s.Q, dq)
 			}
+		}
+		if g, w := aggAttr(m.Got), aggAttr(m.Want); g != "" && w != "" && g != w {
+			return "reexec_traceql_aggregated_attr_renamed", fmt.Sprintf("execution #%d of the plan of %s aggregates attribute %q, the first execution / a fresh plan %q (AttrConditionPlanner.aggregator strips one more prefix from a.AggregatedAttr on every execution)", m.Event+1, s.Q, g, w)
 		}
 		if a := selfRefCTE(m.Got); a != "" && selfRefCTE(m.Want) == "" && m.Event > 0 {
 			return "reexec_cte_defined_from_itself_" + sanitize(regexp.MustCompile(`_?\d+$`).ReplaceAllString(a, "")),
@@ -937,13 +950,17 @@ func replay(r *ev.Run) {
 		json.Unmarshal(out, &x)
 		for _, mm := range x.Mismatches {
 			c, w := classify(mm)
+			if strings.HasPrefix(c, "benign_") {
+				fmt.Printf("replay: textual difference judged same meaning (%s): %s\n", c, w)
+				continue
+			}
 			r.Violate(c, w, mm)
 		}
 		r.AddEval(int64(m.K))
 	case "history":
 		set := map[string][]Spec{"all": allSpecs(), "core": coreSpecs(), "mid40": midSpecs()}[m.Level]
-		if set == nil {
-			set = m.Specs
+		if set == nil || m.SeqFrom == m.Pos || m.Depth == 0 {
+			set = m.Specs // the history alone: only its own specs need a fresh-process reference
 		}
 		base := map[string]string{}
 		for _, s := range set {
